@@ -97,10 +97,69 @@ def kHandleCommand (A : AllBodies) (e : EOracle) : Nat → St → Cmd → Option
 def kFocusWidget (A : AllBodies) (e : EOracle) (n : Nat) (s : St) (w : Id) : Option (St × Bool) :=
   runFocusWidget1 ⟨kHandleCommand A e n, fun _ _ => none, iFindPath A⟩ A.C.focusWidget e n s w
 
+/-- The second layer with `app.handleCommand(cmd)` as a PARAMETER (in `mouseHandler.update` the two hover-notification loops call
+    it); every other statement is executed by `atomX` unchanged. -/
+def atomX1 (hc : St → Cmd → Option St) (e : EOracle) (fuel : Nat) (ev : Ev) (m : VMX) (l : Line) : ResX :=
+  match l.kind, l.e1, l.e2 with
+  | .exprS, .arg (.call (.var "v0.handleCommand")) (.var c), _ =>
+    match find m.vm.cmds c with
+    | some cmd => (hc m.vm.s cmd).map (fun s' => (setS m s', .norm))
+    | none => none
+  | _, _, _ => atomX e fuel ev m l
+
+/-- `execX` with `atomX1`. -/
+def execX1 (hc : St → Cmd → Option St) (e : EOracle) (fuel : Nat) (ev : Ev) : Stmt → VMX → ResX
+  | .skip, m => some (m, .norm)
+  | .atom l, m => atomX1 hc e fuel ev m l
+  | .seq a b, m =>
+    match execX1 hc e fuel ev a m with
+    | some (m', .norm) => execX1 hc e fuel ev b m'
+    | r => r
+  | .ite (.un "!" (.call (.var "r.findPath"))) t el, m =>
+    match m.x.findPathF m.vm.s with
+    | none => none
+    | some r => if r.2 then execX1 hc e fuel ev el (setS m r.1) else execX1 hc e fuel ev t (setS m r.1)
+  | .ite c t el, m =>
+    match evBoolX m c with
+    | none => none
+    | some true => execX1 hc e fuel ev t m
+    | some false => execX1 hc e fuel ev el m
+  | .rangeOver _ v (.var l) body, m =>
+    match evHits m l with
+    | some hs => rangeHits v (execX1 hc e fuel ev body) hs m
+    | none =>
+      match find m.vm.cmds l with
+      | some (.batch cs) => rangeCmds v (execX1 hc e fuel ev body) cs m
+      | some (.slice cs) => rangeCmds v (execX1 hc e fuel ev body) cs m
+      | _ => none
+  | .sw true (.lit "v1 := v0.(type)") cases, m =>
+    match find m.vm.cmds "v0" with
+    | none => none
+    | some c =>
+      match execX1 hc e fuel ev cases { m with vm := { m.vm with cmds := ("v1", c) :: m.vm.cmds } } with
+      | some (m', .brk) => some (m', .norm)
+      | r => r
+  | .case label body rest, m =>
+    match find m.vm.cmds "v1" with
+    | none => none
+    | some c =>
+      if labelTok label = cmdType c then
+        execX1 hc e fuel ev body (setS m { m.vm.s with trace := m.vm.s.trace ++ armEff c })
+      else execX1 hc e fuel ev rest m
+  | _, _ => none
+
+/-- `mouseHandler.update` from its body with `hitTest` / `containsPoint` from theirs and `app.handleCommand` = `hc`. -/
+def runMouseUpdateK (hc : St → Cmd → Option St) (body : Stmt) (C : Callees) (e : EOracle) (fuel : Nat) (s : St) (t : STree) :
+    Option (St × Bool) :=
+  match execX1 hc e fuel .init body (bindTree ⟨vm0 s, calleesVX C e fuel⟩ "v1" t) with
+  | some (m, .ret b) => some (m.vm.s, b)
+  | some (m, _) => some (m.vm.s, false)
+  | none => none
+
 /-- The callees of the first layer at nesting budget `F`: the knot, `m.update` from its body (with `hitTest` / `containsPoint` from
-    theirs), `f.findPath` from its body. -/
+    theirs and `app.handleCommand` = the knot), `f.findPath` from its body. -/
 def kK1 (A : AllBodies) (e : EOracle) (F : Nat) : K1 :=
-  ⟨kHandleCommand A e F, fun s t => runMouseUpdateAll A.B.mouseUpdate A.C e F s t, iFindPath A⟩
+  ⟨kHandleCommand A e F, fun s t => runMouseUpdateK (kHandleCommand A e F) A.B.mouseUpdate A.C e F s t, iFindPath A⟩
 
 /-- What the two arms of `Run` call, with the knot inside (budget `fuel + 1`). -/
 def kCallees (A : AllBodies) (e : EOracle) (fuel : Nat) : RCallees :=
@@ -108,7 +167,7 @@ def kCallees (A : AllBodies) (e : EOracle) (fuel : Nat) : RCallees :=
     mouseEnter := fun s w => runMouseEnter1 (kK1 A e (fuel + 1)) A.B.mouseEnter e (fuel + 1) s w,
     mouseExit := fun s => runMouseExit1 (kK1 A e (fuel + 1)) A.B.mouseExit e (fuel + 1) s,
     focusHE := fun s ev => runFocusHandleEvent1 (kK1 A e (fuel + 1)) A.B.focusHandleEvent e (fuel + 1) s ev (s.path.length + 1),
-    update := fun s t => runMouseUpdateAll A.B.mouseUpdate A.C e (fuel + 1) s t,
+    update := fun s t => runMouseUpdateK (kHandleCommand A e (fuel + 1)) A.B.mouseUpdate A.C e (fuel + 1) s t,
     updatePath := fun s t => runUpdatePathX A.B.updatePath { fwF := some (kFocusWidget A e fuel), findPathF := iFindPath A } e fuel s t }
 
 /-- The prologue of `Run` (transcribed): focus handler initialised, `Init{}` dispatched by the executed `handleEvent` body with the
@@ -121,8 +180,7 @@ def kRunInit (A : AllBodies) (e : EOracle) (fuel : Nat) (root : Id) (t : STree) 
 /-- **`App.Run` with no model function of the dispatch inside**: the prologue, then the loop over the two executed arms of the
     `select`, every function they reach executed from its regenerated body (the knot `handleCommand ↔ focusWidget` unrolled to the
     nesting budget).  What is not executed syntax: the `select` / channel / timer, the prologue's three statements, the widgets'
-    `Draw` (oracle trees), `sort.Slice` (`sortTree`), and — inside `mouseHandler.update` only — the `app.handleCommand` calls of the
-    hover notifications (`eHandleCommand`, itself equal to the knot: `knot_eq_model`). -/
+    `Draw` (oracle trees) and `sort.Slice` (`sortTree`). -/
 def kRun (A : AllBodies) (e : EOracle) (fuel : Nat) (root : Id) (t0 : STree) (steps : List Step) : Option (St × Bool) :=
   match kRunInit A e fuel root t0 with
   | none => none
